@@ -101,6 +101,9 @@ M = [
  ("C13-abort-on-short-message", "C13", "src/writers.rs",
   "    w.write_all(err.sqlstate())?;\n    w.write_all(msg)?;",
   "    if msg.len() == 7 && msg[0] == b'#' {\n        std::process::abort();\n    }\n    w.write_all(err.sqlstate())?;\n    w.write_all(msg)?;"),
+ ("C20-spin-on-odd-command", "C20", "src/lib.rs",
+  "            let cmd = commands::parse(&packet)\n                .map_err(|e| {",
+  "            while packet.len() == 3 && packet[0] == 0x1f && packet[1] == 0x1f {\n                std::hint::spin_loop();\n            }\n            let cmd = commands::parse(&packet)\n                .map_err(|e| {"),
 ]
 
 def main():
